@@ -107,6 +107,11 @@ struct Case {
     /// and the listener registration"
     #[serde(default)]
     hold_workers: bool,
+    /// fake hardware only: processor-time quota in tenths (0 = none). Never generated by the
+    /// random section; only the fixed `quota-probe` cases set it. With a quota the spawners are
+    /// pinned to any processor of the hardware, not only to the quota-limited default set.
+    #[serde(default)]
+    quota_tenths: u8,
 }
 
 // ------------------------------------------------------------------------------------------------
@@ -165,7 +170,7 @@ fn case_strategy() -> impl Strategy<Value = Case> {
         any::<bool>(),
         prop::bool::weighted(0.35),
     )
-        .prop_map(|(hw, workers_per_processor, threads, drop, keep_scheduler, hold_workers)| Case { hw, workers_per_processor, threads, drop, keep_scheduler, hold_workers })
+        .prop_map(|(hw, workers_per_processor, threads, drop, keep_scheduler, hold_workers)| Case { hw, workers_per_processor, threads, drop, keep_scheduler, hold_workers, quota_tenths: 0 })
 }
 
 /// The yield points of the spawner (S) and of the dropper (D), each in program order.
@@ -233,9 +238,31 @@ fn race_cases() -> Vec<Case> {
                         drop: DropSpec::Race { thread: 0, op: u16::from(warm) * 40000, order },
                         keep_scheduler,
                         hold_workers: false,
+                        quota_tenths: 0,
                     });
                 }
             }
+        }
+    }
+    out
+}
+
+/// Fixed probe of the open finding: fake hardware with 4 processors under a processor-time quota,
+/// the spawner pinned to each processor in turn, three spawn + await.
+fn quota_cases() -> Vec<Case> {
+    let mut out = Vec::new();
+    for quota_tenths in [10u8, 20] {
+        for p in 0u16..4 {
+            let pre = (0..3).map(|i| Op::Spawn { kind: 0, task: Task::Value(i), wait: 0 }).collect();
+            out.push(Case {
+                hw: 4,
+                workers_per_processor: 1,
+                threads: vec![Script { proc: p * 16384 + 100, pre, post: vec![] }],
+                drop: DropSpec::AfterPre,
+                keep_scheduler: true,
+                hold_workers: false,
+                quota_tenths,
+            });
         }
     }
     out
@@ -950,14 +977,20 @@ fn hardware_for(case: &Case) -> (SystemHardware, bool) {
         (SystemHardware::current().clone(), true)
     } else {
         let n = usize::from(case.hw.clamp(2, 8));
-        (SystemHardware::fake(HardwareBuilder::from_counts(NonZero::new(n).expect("n>=2"), NonZero::new(1).expect("1"))), false)
+        let mut b = HardwareBuilder::from_counts(NonZero::new(n).expect("n>=2"), NonZero::new(1).expect("1"));
+        if case.quota_tenths > 0 {
+            b = b.max_processor_time(f64::from(case.quota_tenths) / 10.0);
+        }
+        (SystemHardware::fake(b), false)
     }
 }
 
 /// Runs one case to completion on the calling (coordinator) thread.
 fn run_case(case: &Case) -> WReply {
     let (hw, real) = hardware_for(case);
-    let mut procs: Vec<i64> = hw.processors().processors().iter().map(|p| i64::from(p.id())).collect();
+    let quota = !real && case.quota_tenths > 0;
+    let default_set: Vec<i64> = hw.processors().processors().iter().map(|p| i64::from(p.id())).collect();
+    let mut procs: Vec<i64> = if quota { hw.all_processors().processors().iter().map(|p| i64::from(p.id())).collect() } else { default_set.clone() };
     procs.sort_unstable();
     let res = resolve(case, &procs);
     let n = res.scripts.len();
@@ -1067,10 +1100,10 @@ fn run_case(case: &Case) -> WReply {
     set_me(None);
     *CURRENT.lock().unwrap() = None;
 
-    judge(case, &res, &sh, base_all, real)
+    judge(case, &res, &sh, base_all, real, quota.then_some(default_set.as_slice()))
 }
 
-fn judge(case: &Case, res: &Resolved, sh: &Arc<Shared>, base_all: usize, real: bool) -> WReply {
+fn judge(case: &Case, res: &Resolved, sh: &Arc<Shared>, base_all: usize, real: bool, quota_default_set: Option<&[i64]>) -> WReply {
     let mut reply = WReply { status: "ok".into(), ..WReply::default() };
     let mut classes: Vec<String> = Vec::new();
     let hwname = if real { "real" } else { "fake" };
@@ -1084,6 +1117,11 @@ fn judge(case: &Case, res: &Resolved, sh: &Arc<Shared>, base_all: usize, real: b
         }
         .into(),
     );
+    if let Some(set) = quota_default_set {
+        classes.push(format!("quota:{:.1}", f64::from(case.quota_tenths) / 10.0));
+        let outside = res.scripts.iter().any(|s| !set.contains(&s.proc));
+        classes.push(if outside { "quota:spawner-outside-default-set" } else { "quota:spawner-inside-default-set" }.into());
+    }
     if res.has_blockers {
         classes.push("has:blocker-task".into());
     }
@@ -1125,7 +1163,14 @@ fn judge(case: &Case, res: &Resolved, sh: &Arc<Shared>, base_all: usize, real: b
         if runs >= 1 {
             let (seen, expected) = (rec.seen.load(SeqCst), rec.expected.load(SeqCst));
             if seen != expected {
-                failures.push((format!("C14/task/ran-on-wrong-processor/{hwname}"), format!("task {id} was spawned from processor {expected} and ran on processor {seen}")));
+                match quota_default_set {
+                    // the open finding: only for a spawner outside the quota-limited default set
+                    Some(set) if !set.contains(&expected) => failures.push((
+                        "C14/quota/worker-not-pinned-outside-quota-limited-set".into(),
+                        format!("quota {:.1}: task {id} was spawned from processor {expected}, which is outside hardware.processors() = {set:?}, and ran on processor {seen}", f64::from(case.quota_tenths) / 10.0),
+                    )),
+                    _ => failures.push((format!("C14/task/ran-on-wrong-processor/{hwname}"), format!("task {id} was spawned from processor {expected} and ran on processor {seen}"))),
+                }
             }
         }
     }
@@ -1532,6 +1577,19 @@ fn main() {
         "complete enumeration: every order (792 merges) of the spawner's seven yield points (spawn entry, after the shutdown-flag load, before and after the per-processor state get_or_init, before the handle-list lock, after ensure_workers_spawned, after the queue push) against the dropper's five (drop called, flag stored, shutdown signalled to existing states, workers joined, drop returned) x spawn kind (spawn, spawn_and_forget) x first use of the processor or workers already running x scheduler kept or dropped before awaiting; adjacent points bracket one action, so an order sequences two actions of the two threads or leaves them concurrent; a second thread on another processor holds a handle across the drop and the racing thread spawns once more through its outlived scheduler; every case is non-trivial by the stated rule",
         race_cases(),
         |case, ctx| check(case, ctx, &mut drv),
+    );
+    drv.failed_once = false;
+    drv.hang_evals = 0;
+    h.enumerate(
+        "quota-probe",
+        "fixed probe of an open finding, outside the random generator: fake hardware with 4 processors under a processor-time quota of 1.0 and 2.0 (hardware.processors() then holds 1 resp. 2 of the 4), one spawner pinned to each of the 4 processors in turn, three spawn + await on a live pool, pool dropped afterwards; same oracle, a task seen on another processor than its spawner's is reported as C14/quota/worker-not-pinned-outside-quota-limited-set when the spawner's processor is outside hardware.processors(); single-threaded cases, none is non-trivial by the stated rule",
+        quota_cases(),
+        |case, ctx| {
+            // a known-finding hit must not switch the driver into its shrinking mode
+            let r = check(case, ctx, &mut drv);
+            drv.failed_once = false;
+            r
+        },
     );
     h.note("timeouts_not_reproduced", serde_json::json!(drv.unreproduced));
     h.note("worker_cases_run", serde_json::json!(drv.cases_run));
